@@ -87,10 +87,11 @@ def _target_names(t, types, R):
 
 class Taint:
     """Intra-procedural taint of names that alias the memory map."""
-    def __init__(self, ctx, func, seeds):
+    def __init__(self, ctx, func, seeds, attr_seeds=()):
         self.ctx = ctx
         self.func = func
         self.T = set(seeds)
+        self.A = set(attr_seeds)      # dotted attribute expressions that are the map itself
         changed = True
         while changed:
             changed = False
@@ -124,6 +125,8 @@ class Taint:
         if isinstance(e, ast.Starred):
             return self.level(e.value)
         if isinstance(e, ast.Attribute):
+            if dotted(e) in self.A:
+                return 'view'
             lv = self.level(e.value)
             if lv == 'clean':
                 return 'clean'
@@ -261,6 +264,23 @@ def esc_obligations(ctx, clause, only_funcs=None):
                        detail=f'{kind} of `{norm(val)[:60]}` uses an operation the taint table does not know')
         else:
             ctx.ok('R-ESC', clause, f, w, construct, inst)
+    # the cached map attribute itself must not escape from any method of the class
+    if only_funcs is None:
+        for f in opener.cls.all_funcs():
+            if f is opener:
+                continue
+            T = Taint(ctx, f, set(), attr_seeds={f'self.{mattr}'})
+            for n in own_nodes(f.node):
+                val = None
+                if isinstance(n, ast.Return) and n.value is not None:
+                    val, kind = n.value, 'return'
+                elif isinstance(n, (ast.Yield, ast.YieldFrom)) and n.value is not None:
+                    val, kind = n.value, 'yield'
+                if val is not None and T.level(val) == 'view':
+                    ctx.bad('R-ESC', clause, f, n, f'cached-map-escapes::{kind}',
+                            f'{f.qualname}: the cached map self.{mattr} does not leave the method except through a copy',
+                            detail=f'{kind} of `{norm(val)[:60]}`: a view of the shared memory map reaches the '
+                                   f'caller; it changes under later writes and is unmapped when the context ends')
     return nblocks
 
 
